@@ -501,56 +501,38 @@ def rule_Q(ctx):
 
 
 def rule_L(ctx):
-    """C03.L Gregorian leap rule on all residues mod 400"""
+    """C03.L the leap-year rule: ObsTime.isLeapYear interpreted (with whatever class constants and helpers it uses) on every year
+    1583..3000 against the Gregorian rule; when the argument is used only through year % k with k | 400 the 400 residues decide all years"""
+    from .. import absint
     func = ctx.prog.func(CLS + '.isLeapYear')
-    body = body_nodocstring(func)
     p = func.params[0]
-    # dependence only through year % k with k | 400
-    for n in ast.walk(func.node):
-        if isinstance(n, ast.Name) and n.id == p and isinstance(n.ctx, ast.Load):
-            pass
-    mods = []
     pm = {}
     for n in ast.walk(func.node):
         for c in ast.iter_child_nodes(n):
             pm[c] = n
+    periodic = True
     for n in ast.walk(func.node):
         if isinstance(n, ast.Name) and n.id == p and isinstance(n.ctx, ast.Load):
             par = pm.get(n)
-            if isinstance(par, ast.BinOp) and isinstance(par.op, ast.Mod) and par.left is n and \
-                    isinstance(par.right, ast.Constant) and isinstance(par.right.value, int) and \
-                    par.right.value > 0 and 400 % par.right.value == 0:
-                mods.append(par.right.value)
-            else:
-                raise shape_error('isLeapYear uses its argument other than through year %% k (k | 400): %s'
-                                  % unparse(par), func.loc(n))
+            if not (isinstance(par, ast.BinOp) and isinstance(par.op, ast.Mod) and par.left is n and isinstance(par.right, ast.Constant)
+                    and isinstance(par.right.value, int) and par.right.value > 0 and 400 % par.right.value == 0):
+                periodic = False
+    fn_ = absint.funcs(ctx, MOD)
+    T = absint.classref(ctx, CLS, fn_)
     bad = []
-    for y in range(1600, 2000):
+    years = range(1583, 3001)
+    for y in years:
         try:
-            kind, val = orders.run_block(body, {p: y})
+            val = T.isLeapYear(y)
         except orders.Unsupported as e:
             raise shape_error('isLeapYear not interpretable: %s' % e, func.loc())
+        except (IndexError, KeyError, TypeError, ZeroDivisionError, AttributeError, orders.Raised) as e:
+            val = '%s: %s' % (type(e).__name__, e)
         want = (y % 4 == 0) and (y % 100 != 0 or y % 400 == 0)
-        if kind != 'return' or bool(val) != want:
+        if (val is not True and val is not False and not hasattr(type(val), 'dtype')) or bool(val) != want:
             bad.append((y, val))
-    ctx.check(not bad, 'C03.L', func, 'isLeapYear is the Gregorian rule on all 400 residues of the year modulo 400',
-              witness={'years (residue class representatives) answered wrongly': bad[:8]}, node=func.node,
-              key='leap-rule')
-    # the same rule everywhere: conversions call isLeapYear, no private copy
-    for fn in ('readUnixTime', 'toAbsTime'):
-        f = ctx.prog.func(CLS + '.' + fn)
-        calls = [n for n in ast.walk(f.node) if isinstance(n, ast.Call) and
-                 (getattr(n.func, 'attr', None) == 'isLeapYear' or getattr(n.func, 'id', None) == 'isLeapYear')]
-        inl = [n for n in ast.walk(f.node) if isinstance(n, ast.BinOp) and isinstance(n.op, ast.Mod)
-               and isinstance(n.right, ast.Constant) and n.right.value in (4, 100, 400)]
-        if inl:
-            # an inlined divisibility test: evaluate it as a leap rule on its own
-            for n in inl:
-                par = n
-                ctx.violation('C03.L', f, 'leap years are decided by isLeapYear in both conversions (same rule everywhere)',
-                              {'private divisibility test': unparse(n),
-                               'why': 'a year-divisibility test outside isLeapYear decides differently from the '
-                                      'Gregorian rule for some century (e.g. 2100)'} , node=n, key='inline-leap')
+    ctx.check(not bad, 'C03.L', func, 'isLeapYear is the Gregorian rule on every year %d..%d%s' % (years[0], years[-1], ' (it reads the year only modulo divisors of 400: all years)' if periodic else ''),
+              witness={'years answered wrongly': bad[:8]}, node=func.node, key='leap-rule')
 
 
 def rule_M(ctx):
@@ -845,7 +827,7 @@ def rule_Y(ctx):
         plan = [(y, range(1, 13)) for y in range(1970, 2111)]
     else:
         plan = [(y, range(1, 13)) for y in (1970, 1971, 1972, 1973, 1999, 2000, 2001, 2004)] + \
-               [(y, (1, 2, 3, 12)) for y in (2038, 2096, 2099, 2100, 2101, 2104)]
+               [(y, (1, 2, 3, 12)) for y in (2038, 2096, 2099, 2100, 2101, 2104, 2200, 2300, 2400, 2401)]
     bad_t, bad_r = [], []
     n = 0
     for y, months in plan:
